@@ -114,6 +114,13 @@ def run(tier):
           api=api, options=o, per=40, cdefs=["VF_LESS_BELOW_PREFIX"])
         kn2 = dict(base, VF_OPMASK=H.opmask(H.OP_REJECT), VF_FREE_OP=1, VF_BUDGET_OP=99)
         J("reject-" + api, pattern_groups(L - 1, H.ops_action([H.OP_REJECT], api), api)[:120], kn2, api=api, options=o, per=40)
+    # yyless() called from a function in section 3 (the skeleton redefines it there, with its own line bookkeeping: round-8 seed C09-r8m2)
+    for api in ("NR", "R", "C99"):
+        for arr in (0, 1):
+            l3 = [H.OP_LESS, H.OP_MORE]
+            J("less3-%s-%d" % (api, arr), pattern_groups(L - 1, H.ops_action(l3, api, less3=True), api)[:120],
+              dict(base, VF_OPMASK=H.opmask(*l3), VF_BUDGET_DEFAULT=2, VF_BUDGET_TOTAL=2), api=api,
+              options=["yylineno"] + (["reentrant"] if api == "R" else []) + (["array"] if arr else []), cdefs=["VF_LESS3"] + (["VF_ARRAY"] if arr else []), per=40)
     J("array-ops", pattern_groups(L - 1, H.ops_action([H.OP_LESS, H.OP_UNPUT, H.OP_INPUT1, H.OP_MORE])),
       dict(base, VF_OPMASK=H.opmask(H.OP_LESS, H.OP_UNPUT, H.OP_INPUT1, H.OP_MORE), VF_BUDGET_DEFAULT=1, VF_BUDGET_TOTAL=1,
            VF_UNPUT_CHARS='"a\\n"'), options=["yylineno", "array"], cdefs=["VF_ARRAY"], per=40)
